@@ -5,7 +5,7 @@ CHECKS = {
         test="TestC01",
         quick=dict(procs=6, checks=3000),
         thorough=dict(procs=32, checks=20000, timeout=1500),
-        rule="rapid draws (anonymous struct type via reflect.StructOf or a named generated type, value of it); "
+        rule="rapid draws (anonymous struct type via reflect.StructOf or a named generated type, value of it; about one value in a hundred carries one large leaf: a string/binary of 64 KiB..1 MiB or a list/set/map of 1000..70000 scalars or short strings, counted under generated:huge-*); "
              "non-trivial = value has >=1 non-zero leaf and the type has a container, a nested struct or >=3 fields; "
              "distinct by hash(type signature, reference encoding)",
         technique="property-based testing (rapid): generated (type, value) pairs, round-trip oracle against an independent reference model",
